@@ -11,6 +11,9 @@ import (
 
 // Deprecated
 func tileIDs(c *api.Context, feature b6.Feature) (b6.Collection[b6.FeatureID, int], error) {
+	if err := requireFeature("tile-ids", feature); err != nil {
+		return b6.Collection[b6.FeatureID, int]{}, err
+	}
 	ids := b6.ArrayCollection[b6.FeatureID, int]{}
 	if a, ok := feature.(b6.AreaFeature); ok {
 		ids.Keys = make([]b6.FeatureID, a.Len())
